@@ -76,7 +76,9 @@ def build(case, ctx):
     n = 3 + case["s"] % 8
     del _PARTS[:]
     del _INTER[:]
-    if case.get("i", 0) % 4 == 2:
+    if case.get("i", 0) % 8 == 5:
+        records = repeated_group_family(case["s"], n)
+    elif case.get("i", 0) % 4 == 2:
         records = same_name_family(case["s"], n + 2)
     elif case.get("i", 0) % 4 == 1:
         records = embedded_stream_family(case["s"], min(n, 5))
@@ -177,6 +179,30 @@ def write_records(fileobj, records, carry_on):
                     crashed = e
         w.fp = None
     return ok, crashed
+
+
+def repeated_group_family(seed, n):
+    """Grouped records of ONE shape written several times between plain records: when the announcement of a member type is
+    lost (failed write, cut) the later groups of that shape must not come back with that member missing."""
+    import random
+
+    from flow.record import GroupedRecord, RecordDescriptor
+
+    rng = random.Random(seed)
+    M1 = RecordDescriptor("rg/meta", [("string", "host"), ("varint", "n")])
+    M2 = RecordDescriptor("rg/http", [("string", "url"), ("uint16", "status")])
+    M3 = RecordDescriptor("rg/tls", [("string", "sni")])
+    P = RecordDescriptor("rg/plain", [("varint", "k")])
+    out = []
+    for j in range(max(n, 5)):
+        if j % 3 == 2:
+            out.append(P(k=j))
+        else:
+            members = [M1(host="h%d" % j, n=j), M2(url="http://x/%d" % j, status=200 + j)]
+            if rng.random() < 0.5:
+                members.append(M3(sni="s%d" % j))
+            out.append(GroupedRecord("rg/hit", members))
+    return out
 
 
 def tiny_frame_family(seed, n):
